@@ -656,13 +656,19 @@ package ast
 //@   nopanic
 //@   ensures 0 <= n && n <= len(buf) && (err == nil ==> n == len(buf))
 //@   ghost_exit $consumed = $consumed + n
+// io.Reader.Read may deliver FEWER bytes than asked without an error (T-IO): the raw-bytes token is consumed only by a full read
 //@ extern func (r io.Reader) Read(p) (n, err)
 //@   nopanic
 //@   ensures 0 <= n && n <= len(p)
+//@   ensures err != nil || n == len(p) || n < len(p)
 //@   ghost_exit $consumed = $consumed + n
+//@   ghost_exit $rPos = ite(err == nil && n == len(p), $rPos + 1, $rPos)
 //@ extern func (w io.Writer) Write(p) (n, err)
 //@   nopanic
 //@   ensures 0 <= n && n <= len(p) && (n < len(p) ==> err != nil)
+//@   ghost_exit $wK = ite(err == nil, store($wK, $wN, 5), $wK)
+//@   ghost_exit $wN = ite(err == nil, $wN + 1, $wN)
+//@   ghost_exit $wErrN = ite(err != nil, $wErrN + 1, $wErrN)
 // ReadStringFromReader is CHECKED for the safety clauses (C20) and carries the token-level abstraction as trusted clauses.
 //@ func ReadStringFromReader(reader) (s, err)
 //@   serves C20
@@ -1040,3 +1046,23 @@ package ast
 //@   modifies *, @rstream, $catReadFailed
 //@   ensures[C12] incompletefails: $catReadFailed ==> retErr != nil
 //@   ensures[C12] errornokb: retErr != nil ==> retKb == nil
+
+
+// ---- ConstantMeta: NodeMeta, ValueType, byte count, raw bytes, IsNil ----
+//@ func (meta *ConstantMeta) WriteMetaTo(writer) (err)
+//@   serves C12
+//@   requires meta != nil && writer != nil && 0 <= meta.ValueType
+//@   nopanic
+//@   modifies @wstream
+//@   ensures[C12] encodes: err == nil ==> $wN == old($wN) + 7 && $wK[old($wN)] == 1 && $wS[old($wN)] == meta.AstID && $wK[old($wN)+1] == 1 && $wS[old($wN)+1] == meta.GrlText && $wK[old($wN)+2] == 1 && $wS[old($wN)+2] == meta.Snapshot
+//@        && $wK[old($wN)+3] == 2 && $wI[old($wN)+3] == meta.ValueType && $wK[old($wN)+4] == 2 && $wI[old($wN)+4] == len(meta.ValueBytes) && $wK[old($wN)+5] == 5 && $wK[old($wN)+6] == 3 && $wB[old($wN)+6] == meta.IsNil
+//@   ensures[C12] errorsurfaces: ($wErrN > old($wErrN)) == (err != nil) && $wErrN >= old($wErrN)
+//@ macro func kindsConstantMeta(K array[int]int, p int) bool { return K[p] == 1 && K[p+1] == 1 && K[p+2] == 1 && K[p+3] == 2 && K[p+4] == 2 && K[p+5] == 5 && K[p+6] == 3 }
+//@ func (meta *ConstantMeta) ReadMetaFrom(reader) (err)
+//@   serves C12 C20
+//@   requires meta != nil && reader != nil && $rPos >= 0
+//@   modifies ConstantMeta.*, @rstream
+//@   ensures[C12] decodes: err == nil && kindsConstantMeta($rK, old($rPos)) ==> $rPos == old($rPos) + 7 && meta.AstID == $rS[old($rPos)] && meta.GrlText == $rS[old($rPos)+1] && meta.Snapshot == $rS[old($rPos)+2]
+//@        && meta.ValueType == wrap_s64($rI[old($rPos)+3]) && len(meta.ValueBytes) == $rI[old($rPos)+4] && meta.IsNil == $rB[old($rPos)+6]
+//@   ensures[C12] completeloads: kindsConstantMeta($rK, old($rPos)) && old($rPos) + 7 <= $rEnd && $rI[old($rPos)+4] < 9223372036854775808 ==> err == nil
+//@   ensures[C12] truncationfails: err == nil ==> $rPos <= $rEnd && $rPos >= old($rPos)
